@@ -224,6 +224,8 @@ def per_execution_checks(cfg, system_hs, start, start_dir, info):
         if abs(st["accept_stat"] - exp_acc) > 1e-12:
             out.append(("accept_stat", st["accept_stat"], exp_acc))
         moved = info["end_idx"] != start
+        if (st["convergence_error"] or st["non_reversible_step"]) and moved:
+            out.append(("state_after_integrator_error", info["end_idx"], start))
         # dir: +dir on accept, -dir on reject
         if moved and info["end_dir"] != start_dir:
             out.append(("dir_after_accept", info["end_dir"], start_dir))
@@ -620,6 +622,27 @@ def table_configs(tier, seed):
                             cfgs.append({"transition": "slice", "n": n, "h": h,
                                          "max_tree_depth": depth, "crit": crit,
                                          "extra_checks": extra, "max_delta_h": mdh})
+    # blocked edges: the integrator raises on one (undirected) edge of the ring, so trajectories
+    # are cut short by integrator errors part-way through (symmetric in direction)
+    for n in ([4, 5] if tier == "quick" else [3, 4, 5, 7]):
+        for h in energy_tables(n, seed, tier)[:: (4 if tier == "quick" else 2)]:
+            for blocked in ([0], [n - 2]):
+                for n_step in (2, 3):
+                    cfgs.append({"transition": "static", "n": n, "h": h, "n_step": n_step,
+                                 "blocked": blocked})
+                cfgs.append({"transition": "random", "n": n, "h": h, "n_step_range": (1, 4),
+                             "blocked": blocked})
+                for depth in (2, 3):
+                    for crit in (("never",), ("wrap",), ("hash", _mix(seed, n, depth) % 1000, 2)):
+                        for extra in (True, False):
+                            cfgs.append({"transition": "multinomial", "n": n, "h": h,
+                                         "max_tree_depth": depth, "crit": crit,
+                                         "extra_checks": extra, "max_delta_h": "inf",
+                                         "blocked": blocked})
+                            cfgs.append({"transition": "slice", "n": n, "h": h,
+                                         "max_tree_depth": depth, "crit": crit,
+                                         "extra_checks": extra, "max_delta_h": 2.0,
+                                         "blocked": blocked})
     return cfgs
 
 
